@@ -141,6 +141,10 @@ def run(out, tier, seed):
         cases = keep + rng.sample(rest, cap - len(keep))
         for i, c in enumerate(cases):
             c["id"] = i
+    # a fifth of the random histories run on a function that was tooled in place beforehand
+    for c in cases:
+        if c["src"] == "random" and rng.random() < 0.2:
+            c["inplace"] = True
     # few cases per interpreter: codefind's registry keeps every module copy alive, resolving gets slower as the heap grows
     traces = L.run_histories(cases, work, driver="harness.drivers.ref_driver", par=14, maxchunk=250)
     fails, results = L.validate(traces, work, spec="TraceRefs", par=8)
